@@ -486,6 +486,8 @@ int cmp(const void *a, const void *b)
 void DVectorMedian(dvector* d, double *median)
 {
   (*median) = MISSING;
+  if(d->size == 0) /* nothing to sort: an empty vector may have no buffer at all */
+    return;
   qsort(d->data, d->size, sizeof(double), cmp);
 
   if (d->size%2 == 0){
@@ -519,7 +521,8 @@ void DVectorSDEV(dvector* d, double* sdev)
 
 void DVectorSort(dvector* v)
 {
-  qsort(v->data, v->size, sizeof(v->data[0]), cmp);
+  if(v->size > 0) /* an empty vector may have no buffer at all */
+    qsort(v->data, v->size, sizeof(v->data[0]), cmp);
 }
 
 /* INT VECTOR */
@@ -785,5 +788,6 @@ int intcmp(const void *v1, const void *v2)
 
 void SortUIVector(uivector* d)
 {
-  qsort(d->data, d->size, sizeof(d->data[0]), intcmp);
+  if(d->size > 0) /* an empty vector may have no buffer at all */
+    qsort(d->data, d->size, sizeof(d->data[0]), intcmp);
 }
